@@ -65,66 +65,7 @@ func C03(p *ir.Program, r *report.R) {
 	precommitT := fmt.Sprint(c.ConstInt("types", "VoteTypePrecommit"))
 
 	// ---- VerifyCommit tally ------------------------------------------------
-	{
-		fn := p.Func("types", "ValidatorSet.VerifyCommit")
-		name := "types.(*ValidatorSet).VerifyCommit"
-		accs := accumulators(fn, "talliedVotingPower")
-		if c.MustFind("K1", name+"/tally", fn, len(accs), "talliedVotingPower += ...") {
-			r.Check("K1", name+"/tally/single-site", p.InstrPos(accs[0]), len(accs) == 1, fmt.Sprintf("exactly one tally increment (found %d)", len(accs)))
-		}
-		for _, acc := range accs {
-			amt := ir.Render(acc.Y)
-			m := regexp.MustCompile(`^types\.ValidatorSet\.GetByIndex\(valSet,(.+)\)#1\.VotingPower$`).FindStringSubmatch(amt)
-			if !r.Check("K1", name+"/tally/amount", p.InstrPos(acc), m != nil, "amount added is valSet.GetByIndex(idx).VotingPower: "+amt) {
-				continue
-			}
-			idx := m[1]
-			pc := "commit.Precommits[" + idx + "]"
-			c.Guards(name, "tally", acc,
-				G{"precommit-non-nil", "!eq(" + pc + ",nil)"},
-				G{"height", ir.EqPat(pc+".Height", "height")},
-				G{"round", ir.EqPat(pc+".Round", "types.Commit.Round(commit)")},
-				G{"type", "eq(" + pc + ".Type," + precommitT + ")"},
-				G{"signature-of-slot-validator", "crypto.PubKey.VerifyBytes(types.ValidatorSet.GetByIndex(valSet," + idx + ")#1.PubKey,types.Vote.SignBytes(" + pc + ",chainID)," + pc + ".Signature)"},
-				G{"block-id", "types.BlockID.Equals(blockID," + pc + ".BlockID) || types.BlockID.Equals(" + pc + ".BlockID,blockID)"},
-				G{"set-size", ir.EqPat("len(commit.Precommits)", "types.ValidatorSet.Size(valSet)")},
-				G{"commit-height", ir.EqPat("height", "types.Commit.Height(commit)")},
-			)
-		}
-		n := 0
-		for _, rt := range ir.Returns(fn) {
-			if ir.AbstractResult(rt.Results[0]) != "nil" {
-				continue
-			}
-			n++
-			fs := ir.FactsAt(rt.Instr)
-			r.Check("K11", name+"/return nil/two-thirds", p.InstrPos(rt.Instr), hasTwoThirds(fs, "types.ValidatorSet.TotalVotingPower(valSet)", "φ:talliedVotingPower"),
-				"nil error only if tallied > total*2/3 (strict two-thirds normal form); facts: "+short(strings.Join(ir.FactStrings(fs), " ; "), 400))
-			c.Guards(name, "return nil", rt.Instr,
-				G{"set-size", ir.EqPat("len(commit.Precommits)", "types.ValidatorSet.Size(valSet)")},
-				G{"commit-height", ir.EqPat("height", "types.Commit.Height(commit)")},
-				G{"loop-finished", "le(len(commit.Precommits),*)"})
-		}
-		c.MustFind("K1", name+"/return nil", fn, n, "nil return")
-		// the only start value of the tally is 0
-		for _, b := range fn.Blocks {
-			for _, in := range b.Instrs {
-				if ph, ok := in.(*ssa.Phi); ok && ph.Comment == "talliedVotingPower" {
-					for _, e := range ph.Edges {
-						s := ir.Render(e)
-						okE := s == "0" || strings.HasPrefix(s, "φ:talliedVotingPower") || strings.HasPrefix(s, "(φ:talliedVotingPower + ")
-						r.Check("K1", name+"/tally/phi-edge", p.InstrPos(in), okE, "tally starts at 0 and changes only by the guarded increment: "+s)
-					}
-				}
-			}
-		}
-		// VerifyCommitAny (no slot binding) must stay without callers
-		if o := p.TryObj("types", "ValidatorSet.VerifyCommitAny"); o != nil {
-			got := c.CallersOf(o)
-			r.Check("K3", "who-may-call/types.ValidatorSet.VerifyCommitAny", p.Pos(o.Pos()), len(got) == 0,
-				fmt.Sprintf("VerifyCommitAny looks validators up by the address inside the vote (a validator could be counted in several slots); it must have no caller: %v", keys(got)))
-		}
-	}
+	verifyCommitTally(c)
 
 	// ---- VoteSet.addVote admission ---------------------------------------
 	{
@@ -424,5 +365,74 @@ func quorumRules(c C) {
 		if ir.AbstractResult(rt.Results[1]) == "true" {
 			c.Guards("types.(*VoteSet).TwoThirdsMajority", "quorum/return ok", rt.Instr, G{"maj23-set", "!eq(voteSet.maj23,nil)"})
 		}
+	}
+}
+
+
+// verifyCommitTally: the commit verification every consumer relies on (validateBlock for C02, fast
+// sync and the agreement argument for C01, C03 itself): each slot's precommit is checked against the
+// validator AT THAT SLOT and counted with that validator's power, under the height/round/type/
+// signature/block-id guards, and success needs strictly more than two thirds.
+func verifyCommitTally(c C) {
+	p, r := c.P, c.R
+	precommitT := fmt.Sprint(c.ConstInt("types", "VoteTypePrecommit"))
+	_ = r
+	fn := p.Func("types", "ValidatorSet.VerifyCommit")
+	name := "types.(*ValidatorSet).VerifyCommit"
+	accs := accumulators(fn, "talliedVotingPower")
+	if c.MustFind("K1", name+"/tally", fn, len(accs), "talliedVotingPower += ...") {
+		r.Check("K1", name+"/tally/single-site", p.InstrPos(accs[0]), len(accs) == 1, fmt.Sprintf("exactly one tally increment (found %d)", len(accs)))
+	}
+	for _, acc := range accs {
+		amt := ir.Render(acc.Y)
+		m := regexp.MustCompile(`^types\.ValidatorSet\.GetByIndex\(valSet,(.+)\)#1\.VotingPower$`).FindStringSubmatch(amt)
+		if !r.Check("K1", name+"/tally/amount", p.InstrPos(acc), m != nil, "amount added is valSet.GetByIndex(idx).VotingPower: "+amt) {
+			continue
+		}
+		idx := m[1]
+		pc := "commit.Precommits[" + idx + "]"
+		c.Guards(name, "tally", acc,
+			G{"precommit-non-nil", "!eq(" + pc + ",nil)"},
+			G{"height", ir.EqPat(pc+".Height", "height")},
+			G{"round", ir.EqPat(pc+".Round", "types.Commit.Round(commit)")},
+			G{"type", "eq(" + pc + ".Type," + precommitT + ")"},
+			G{"signature-of-slot-validator", "crypto.PubKey.VerifyBytes(types.ValidatorSet.GetByIndex(valSet," + idx + ")#1.PubKey,types.Vote.SignBytes(" + pc + ",chainID)," + pc + ".Signature)"},
+			G{"block-id", "types.BlockID.Equals(blockID," + pc + ".BlockID) || types.BlockID.Equals(" + pc + ".BlockID,blockID)"},
+			G{"set-size", ir.EqPat("len(commit.Precommits)", "types.ValidatorSet.Size(valSet)")},
+			G{"commit-height", ir.EqPat("height", "types.Commit.Height(commit)")},
+		)
+	}
+	n := 0
+	for _, rt := range ir.Returns(fn) {
+		if ir.AbstractResult(rt.Results[0]) != "nil" {
+			continue
+		}
+		n++
+		fs := ir.FactsAt(rt.Instr)
+		r.Check("K11", name+"/return nil/two-thirds", p.InstrPos(rt.Instr), hasTwoThirds(fs, "types.ValidatorSet.TotalVotingPower(valSet)", "φ:talliedVotingPower"),
+			"nil error only if tallied > total*2/3 (strict two-thirds normal form); facts: "+short(strings.Join(ir.FactStrings(fs), " ; "), 400))
+		c.Guards(name, "return nil", rt.Instr,
+			G{"set-size", ir.EqPat("len(commit.Precommits)", "types.ValidatorSet.Size(valSet)")},
+			G{"commit-height", ir.EqPat("height", "types.Commit.Height(commit)")},
+			G{"loop-finished", "le(len(commit.Precommits),*)"})
+	}
+	c.MustFind("K1", name+"/return nil", fn, n, "nil return")
+	// the only start value of the tally is 0
+	for _, b := range fn.Blocks {
+		for _, in := range b.Instrs {
+			if ph, ok := in.(*ssa.Phi); ok && ph.Comment == "talliedVotingPower" {
+				for _, e := range ph.Edges {
+					s := ir.Render(e)
+					okE := s == "0" || strings.HasPrefix(s, "φ:talliedVotingPower") || strings.HasPrefix(s, "(φ:talliedVotingPower + ")
+					r.Check("K1", name+"/tally/phi-edge", p.InstrPos(in), okE, "tally starts at 0 and changes only by the guarded increment: "+s)
+				}
+			}
+		}
+	}
+	// VerifyCommitAny (no slot binding) must stay without callers
+	if o := p.TryObj("types", "ValidatorSet.VerifyCommitAny"); o != nil {
+		got := c.CallersOf(o)
+		r.Check("K3", "who-may-call/types.ValidatorSet.VerifyCommitAny", p.Pos(o.Pos()), len(got) == 0,
+			fmt.Sprintf("VerifyCommitAny looks validators up by the address inside the vote (a validator could be counted in several slots); it must have no caller: %v", keys(got)))
 	}
 }
